@@ -232,6 +232,27 @@ func cmdLayoutSweep(args []string) error {
 			if err := emit("nofinal-nl", "", "\n", " ", true); err != nil {
 				return err
 			}
+			// exact file sizes around the block sizes of readers (4096, 8192), with and without a final newline,
+			// the text ending in its last token
+			{
+				ts := make([]PTok, len(toks))
+				copy(ts, toks)
+				plain := layout(ts, "", " ", "\n")
+				stripped := strings.TrimRight(plain, " \t\n")
+				for _, size := range []int{4095, 4096, 4097, 8191, 8192, 8193, 12288} {
+					if size > len(plain) {
+						if err := emit(fmt.Sprintf("size-%d-nl", size), strings.Repeat(" ", size-len(plain)), " ", "\n", false); err != nil {
+							return err
+						}
+						if err := emit(fmt.Sprintf("size-%d-nonl", size), strings.Repeat(" ", size-len(stripped)), " ", "\n", true); err != nil {
+							return err
+						}
+						if err := emit(fmt.Sprintf("size-%d-nonl-lines", size), strings.Repeat("\n", size-len(stripped)), " ", "\n", true); err != nil {
+							return err
+						}
+					}
+				}
+			}
 			if !optSemi {
 				continue
 			}
